@@ -131,7 +131,7 @@ func (c18Driver) Tier(t string) core.Tier {
 
 func (c18Driver) Info() core.Info {
 	return core.Info{
-		Rule: "A case is a generated module set, a set of derived bad texts (storage damage of a good text: short, torn, bit-flipped, garbage, duplicated block; or a rejected statement spliced into a good module after its typedefs/groupings: missing mandatory substatement, unknown keyword, duplicated single-valued substatement, bad escape, unbalanced brace, unterminated string; or a top-level non-module), and a history of 3-14 operations over {Parse(good), Parse(good again), Parse(bad), Process, query (ToEntry walk, Find, GetErrors, Namespace, InstantiatingModule, ReadOnly, default accessors, Print)} on one Modules under a seeded map-order schedule. " +
+		Rule: "A case is a generated module set, a set of derived bad texts (storage damage of a good text: short, torn, bit-flipped, garbage, duplicated block; or a rejected statement spliced into a good module after its typedefs/groupings: missing mandatory substatement, unknown keyword, duplicated single-valued substatement, bad escape, unbalanced brace, unterminated string; or a top-level non-module), and a history of 3-14 operations over {Parse(good), Parse(good again), Parse(bad), Process, GetModule (which processes the set itself; compared with a fresh set performing the same GetModule), query (ToEntry walk, Find, GetErrors, Namespace, InstantiatingModule, ReadOnly, default accessors, Print)} on one Modules under a seeded map-order schedule. " +
 			"After every Process the outcome must equal that of a fresh Modules loading exactly the accepted texts in the same order and processing once (same schedule). Non-trivial: the history contains a Process that is preceded by a failed load, an earlier Process, or a query. Distinct = distinct case descriptions.",
 		Assumptions: []string{
 			"one module per text (the documented caveat about several modules in one text is outside the claim)",
